@@ -5,6 +5,7 @@ use crate::Case;
 
 pub mod bitvec;
 pub mod iters;
+pub mod paths;
 pub mod prefetch;
 pub mod prims;
 pub mod space;
@@ -33,6 +34,7 @@ pub fn cases(cfg: &Cfg) -> Vec<Case> {
         "C15" => space::cases_c15(cfg),
         "C16" => space::cases_c16(cfg),
         "C17" => prims::cases_c17(cfg),
+        "C19" => paths::cases_c19(cfg),
         other => {
             eprintln!("unknown property {}", other);
             std::process::exit(64);
